@@ -83,7 +83,7 @@ contract(
         "all(old(events[i]).timestamp == old(events[i].timestamp) and old(events[i]).data == old(events[i].data) "
         "    and old(events[i]).duration >= old(events[i].duration) for i in range(old(len(events))))",
     ],
-    modifies=["events", "Event.duration"],
+    modifies=["events", "Event.duration", "alloc"], writes_fresh=["*"],
     raises=[],
     loops={0: dict(
         index="k",
@@ -127,7 +127,7 @@ contract(
         "all(result[i].timestamp == old(events[i].timestamp) and result[i].duration == old(events[i].duration)"
         "    and result[i].data == old(events[i].data) for i in range(len(result)))",
     ],
-    modifies=["events", "Event.duration"],
+    modifies=["events", "Event.duration", "alloc"], writes_fresh=["*"],
     raises=[],
     loops={0: dict(
         index="k",
